@@ -37,7 +37,7 @@ var symBytes = map[string]string{
 	"pw:nul": "s3cr3t-Pass\x00", "pw:crlf": "s3cr3t-Pass\r\n", "pw:other": "hunter2", "pw:space": "s3cr3t-Pass ",
 	"u:bob": "bob", "u:default": "default",
 	// words
-	"w:junk": "JUNKWORD", "w:abc": "abc", "w:1.5": "1.5", "w:huge": "99999999999999999999", "w:paren": "(", "w:1x": "1x",
+	"w:junk": "JUNKWORD", "w:abc": "abc", "w:1.5": "1.5", "w:huge": "99999999999999999999", "w:paren": "(", "w:1x": "1x", "w:minus": "-", "w:plus": "+", "w:sp5": " 5", "w:0x": "0x10",
 	"c:appendonly": "appendonly", "c:save": "save",
 }
 
